@@ -67,7 +67,10 @@ ViewBad(name, path, dates) ==
     ELSE IF Yes(path) \notin Allowed(dates) THEN {<<name, "decisions-not-allowed", Ev.kind, Ev.by>>} ELSE {}
 \* known deviation: the references that place an entry in a list are only signature-checked, so an entry signed by
 \* an admin for the users list can be placed in the admin list by a reference anyone signs
-Attribute(o) == IF o[3] = "user_to_admin" /\ o[2] = "decisions-not-allowed" THEN "PlacementAuthorUnchecked" ELSE "none"
+\* (once that happened the receiver keeps the bogus admin, so the honest candidate that follows cannot give the honest decisions)
+Attribute(o) == IF o[3] = "user_to_admin" /\ o[2] = "decisions-not-allowed" THEN "PlacementAuthorUnchecked"
+                ELSE IF o[3] = "honest" /\ o[2] = "decisions-not-allowed" /\ "PlacementAuthorUnchecked" \in devs THEN "PlacementAuthorUnchecked"
+                ELSE "none"
 Step == /\ l <= Len(Rec) /\ Ev.ev \notin {"begin", "end"} /\ l' = l + 1
         /\ room' = IF Ev.ev = "roomdef" /\ Ev.res = "ok" THEN NewRoom(Ev)
                    ELSE IF Ev.ev = "roomupd" /\ Ev.res = "ok" THEN Updated(room, Ev) ELSE room
